@@ -105,6 +105,9 @@ class Wrapp(util.WrapperMixin):
         self.need_blah = False
         self.header_type_include = util.Header(newlibrary)  # header files in module header
         self.shared_helper = {} # All accumulated helpers
+        # Per library, not per process.
+        self.capsule_code = {}
+        self.capsule_order = []
         update_statements_for_language(self.language)
 
     def XXX_begin_output_file(self):
